@@ -30,6 +30,56 @@ ASSUMPTIONS = ["numpy trigonometric ufuncs compute their mathematical "
 D2R = sp.pi / 180
 
 
+MUTANTS = [
+    ("haversine cos term", "AegeanTools/angle_tools.py",
+     "    a += np.cos(np.radians(dec1)) \\\n        * np.cos(np.radians(dec2"
+     ")) \\", "    a += np.cos(np.radians(dec1)) \\\n        * np.cos("
+     "np.radians(dec1)) \\", "C17-R1"),
+    ("distance not doubled", "AegeanTools/angle_tools.py",
+     "sep = np.degrees(2 * np.arcsin(np.minimum(1, np.sqrt(a))))",
+     "sep = np.degrees(np.arcsin(np.minimum(1, np.sqrt(a))))", "C17-R1"),
+    ("no clamp", "AegeanTools/angle_tools.py",
+     "sep = np.degrees(2 * np.arcsin(np.minimum(1, np.sqrt(a))))",
+     "sep = np.degrees(2 * np.arcsin(np.sqrt(a)))", "C17-R1"),
+    ("bearing swapped atan2", "AegeanTools/angle_tools.py",
+     "    return np.degrees(np.arctan2(y, x))\n\n\ndef translate",
+     "    return np.degrees(np.arctan2(x, y))\n\n\ndef translate", "C17-R2"),
+    ("bearing uses dec1", "AegeanTools/angle_tools.py",
+     "    y = np.sin(rdlon) * np.cos(rdec2)\n",
+     "    y = np.sin(rdlon) * np.cos(rdec1)\n", "C17-R2"),
+    ("bearing wrap slip", "AegeanTools/angle_tools.py",
+     "    rdlon = np.radians(ra2-ra1)\n",
+     "    rdlon = np.radians(ra2-ra1)\n    rdlon = np.where(rdlon < -np.pi, "
+     "rdlon + np.pi, rdlon)\n", "C17-R2"),
+    ("translate sine for cosine", "AegeanTools/angle_tools.py",
+     "            * np.sin(np.radians(r)) \\\n            * np.cos("
+     "np.radians(theta))",
+     "            * np.sin(np.radians(r)) \\\n            * np.sin("
+     "np.radians(theta))", "C17-R3"),
+    ("translate in degrees", "AegeanTools/angle_tools.py",
+     "    x = np.cos(np.radians(r)) - np.sin(np.radians(dec)) \\\n"
+     "        * np.sin(np.radians(dec_out))",
+     "    x = np.cos(np.radians(r)) - np.sin(np.radians(dec)) \\\n"
+     "        * np.sin(dec_out)", "C17-R3"),
+    ("seconds not quantised", "AegeanTools/angle_tools.py",
+     "    total = int(round(abs(x) * 3600 * 100))\n",
+     "    total = int(abs(x) * 3600 * 100)\n", "C17-R4"),
+    ("hours wrapped before rounding", "AegeanTools/angle_tools.py",
+     "    # RA is periodic: 24h == 0h\n    h %= 24\n", "", "C17-R4"),
+    ("ra2dec factor", "AegeanTools/angle_tools.py",
+     "    return dec2dec(ra)*15", "    return dec2dec(ra)*24", "C17-R5"),
+    ("sign from float", "AegeanTools/angle_tools.py",
+     "    if d[0].startswith('-') or float(d[0]) < 0:",
+     "    if float(d[0]) < 0:", "C17-R5"),
+]
+TWINS = [
+    ("haversine with explicit conversion", "AegeanTools/angle_tools.py",
+     "    a = np.sin(np.radians(dlat) / 2) ** 2\n",
+     "    a = np.sin(dlat * np.pi / 360) ** 2\n"),
+]
+
+
+
 def find_func(e, name):
     out = []
     for a in sp.preorder_traversal(e):
@@ -41,9 +91,17 @@ def find_func(e, name):
 def run(ctx):
     prog = ctx.prog
     mod = prog.module("angle_tools")
+    formulae(ctx, prog, {"R1": "C17-R1", "R2": "C17-R2", "R3": "C17-R3"})
+    sexagesimal(ctx, prog, mod)
+
+
+def formulae(ctx, prog, R):
+    """gcd / bear / translate against the reference spherical formulae
+    (shared with C16-R3)"""
+    mod = prog.module("angle_tools")
     ra1, d1, ra2, d2 = sp.symbols("ra1 dec1 ra2 dec2", real=True)
     # ---------------------------------------------------------------- R1
-    ctx.rule("C17-R1", "gcd == (360/pi) asin(min(1, sqrt(h))) with "
+    ctx.rule(R["R1"], "gcd == (360/pi) asin(min(1, sqrt(h))) with "
              "1-2h == sin(d1)sin(d2)+cos(d1)cos(d2)cos(ra2-ra1), symmetric")
     fi = prog.func("angle_tools.gcd")
     try:
@@ -55,7 +113,7 @@ def run(ctx):
     shape = len(mins) == 1 and len(asins) == 1 and \
         sp.simplify(E / asins[0] - 360 / sp.pi) == 0 and \
         asins[0].args[0] == mins[0]
-    ctx.check("C17-R1", fi, "outer form of the distance", shape,
+    ctx.check(R["R1"], fi, "outer form of the distance", shape,
               "expected degrees(2*arcsin(min(1, sqrt(h)))); found %s" % E,
               node=fi.node)
     if mins:
@@ -68,39 +126,47 @@ def run(ctx):
                 sp.cos(d1 * D2R) * sp.cos(d2 * D2R) * \
                 sp.cos((ra2 - ra1) * D2R)
             ok = _half_angle_zero(1 - 2 * h - ref, [ra1, d1, ra2, d2])
-            ctx.check("C17-R1", fi, "haversine identity 1-2h == cos(sep)",
+            ctx.check(R["R1"], fi, "haversine identity 1-2h == cos(sep)",
                       ok, "the haversine term is not the half-versed sine of "
                       "the great-circle separation", {"h": str(h)}, fi.node)
             hs = h.subs({ra1: ra2, d1: d2, ra2: ra1, d2: d1},
                         simultaneous=True)
-            ctx.check("C17-R1", fi, "symmetry under swapping the points",
+            ctx.check(R["R1"], fi, "symmetry under swapping the points",
                       _half_angle_zero(h - hs, [ra1, d1, ra2, d2]),
                       "gcd(p1,p2) != gcd(p2,p1)", node=fi.node)
         else:
-            ctx.check("C17-R1", fi, "clamp min(1, sqrt(h))", False,
+            ctx.check(R["R1"], fi, "clamp min(1, sqrt(h))", False,
                       "clamp arguments %s" % args, node=fi.node)
     # ---------------------------------------------------------------- R2
-    ctx.rule("C17-R2", "bear == degrees(atan2(sin dRA cos d2, cos d1 sin d2 "
+    ctx.rule(R["R2"], "bear == degrees(atan2(sin dRA cos d2, cos d1 sin d2 "
              "- sin d1 cos d2 cos dRA))")
     fi = prog.func("angle_tools.bear")
-    E = sym.inline(prog, fi, [ra1, d1, ra2, d2])
-    at = find_func(E, "atan2")
-    okf = len(at) == 1 and sp.simplify(E / at[0] - 180 / sp.pi) == 0
-    ctx.check("C17-R2", fi, "outer form degrees(atan2(y, x))", okf,
-              "found %s" % E, node=fi.node)
-    if at:
-        y, x = at[0].args
-        dl = (ra2 - ra1) * D2R
-        yr = sp.sin(dl) * sp.cos(d2 * D2R)
-        xr = sp.cos(d1 * D2R) * sp.sin(d2 * D2R) - \
-            sp.sin(d1 * D2R) * sp.cos(d2 * D2R) * sp.cos(dl)
-        ctx.check("C17-R2", fi, "atan2 numerator", sym.is_zero(y - yr),
-                  "y = %s, expected sin(dRA) cos(dec2)" % y, node=fi.node)
-        ctx.check("C17-R2", fi, "atan2 denominator", sym.is_zero(x - xr),
-                  "x = %s, expected cos(d1) sin(d2) - sin(d1) cos(d2) "
-                  "cos(dRA)" % x, node=fi.node)
+    try:
+        cases = sym.inline_cases(prog, fi, [ra1, d1, ra2, d2])
+    except sym.Untranslatable as e:
+        raise AnalysisError("C17-R2: %s" % e)
+    for combo, E in cases:
+        tag = "" if len(cases) == 1 else " [selection branch %s]" % (combo,)
+        at = find_func(E, "atan2")
+        okf = len(at) == 1 and sp.simplify(E / at[0] - 180 / sp.pi) == 0
+        ctx.check(R["R2"], fi, "outer form degrees(atan2(y, x))" + tag, okf,
+                  "found %s" % E, node=fi.node)
+        if at:
+            y, x = at[0].args
+            dl = (ra2 - ra1) * D2R
+            yr = sp.sin(dl) * sp.cos(d2 * D2R)
+            xr = sp.cos(d1 * D2R) * sp.sin(d2 * D2R) - \
+                sp.sin(d1 * D2R) * sp.cos(d2 * D2R) * sp.cos(dl)
+            ctx.check(R["R2"], fi, "atan2 numerator" + tag,
+                      sym.is_zero(y - yr),
+                      "y = %s, expected sin(dRA) cos(dec2)" % y,
+                      node=fi.node)
+            ctx.check(R["R2"], fi, "atan2 denominator" + tag,
+                      sym.is_zero(x - xr),
+                      "x = %s, expected cos(d1) sin(d2) - sin(d1) cos(d2) "
+                      "cos(dRA)" % x, node=fi.node)
     # ---------------------------------------------------------------- R3
-    ctx.rule("C17-R3", "translate: sin(dec') == sin d cos r + cos d sin r "
+    ctx.rule(R["R3"], "translate: sin(dec') == sin d cos r + cos d sin r "
              "cos t; ra' == ra + degrees(atan2(sin t sin r cos d, cos r - "
              "sin d sin dec'))")
     fi = prog.func("angle_tools.translate")
@@ -116,21 +182,24 @@ def run(ctx):
     okd = len(asn) == 1 and \
         sp.simplify(dec_out / asn[0] - 180 / sp.pi) == 0 and \
         sym.is_zero(asn[0].args[0] - F)
-    ctx.check("C17-R3", fi, "destination declination", okd,
+    ctx.check(R["R3"], fi, "destination declination", okd,
               "dec' = %s" % dec_out, node=fi.node)
     at = find_func(ra_out, "atan2")
     oka = len(at) == 1 and sp.simplify((ra_out - ra) / at[0] - 180 / sp.pi) \
         == 0
-    ctx.check("C17-R3", fi, "outer form ra + degrees(atan2(y, x))", oka,
+    ctx.check(R["R3"], fi, "outer form ra + degrees(atan2(y, x))", oka,
               "ra' = %s" % ra_out, node=fi.node)
     if at:
         y, x = at[0].args
         yr = sp.sin(t * D2R) * sp.sin(r * D2R) * sp.cos(dec * D2R)
         xr = sp.cos(r * D2R) - sp.sin(dec * D2R) * F
-        ctx.check("C17-R3", fi, "atan2 numerator", sym.is_zero(y - yr),
+        ctx.check(R["R3"], fi, "atan2 numerator", sym.is_zero(y - yr),
                   "y = %s" % y, node=fi.node)
-        ctx.check("C17-R3", fi, "atan2 denominator", sym.is_zero(x - xr),
+        ctx.check(R["R3"], fi, "atan2 denominator", sym.is_zero(x - xr),
                   "x = %s" % x, node=fi.node)
+
+
+def sexagesimal(ctx, prog, mod):
     # ---------------------------------------------------------------- R4
     ctx.rule("C17-R4", "every fixed-decimal sexagesimal field is split from "
              "a total that was quantised (round) first, or the carry is "
